@@ -34,6 +34,9 @@ type topic struct {
 	fns   []fnKey
 	refl  bool // uses the reflective helpers: the reflect primitives are checked first
 	part2 bool // second part of the translator (code_slice.go): byte slices, panics, loops
+	// fourth part (code_part4.go): topics4 below
+	pkg    string  // "" = the root package, otherwise the sub-directory of the repository (package suffix)
+	opaque []fnKey // callees that are NOT translated: they become function parameters (see code_part4.go)
 }
 
 func cfgPair(t string) []fnKey { return []fnKey{{t, "SetDefaults"}, {t, "Verify"}} }
@@ -49,48 +52,59 @@ func cat(ls ...[]fnKey) []fnKey {
 // order matters only for readability: a function is emitted by the first topic that
 // needs it, later topics import that module
 var codeTopics = []topic{
-	{"Ints", "ints.go: iverson, doz, min", []fnKey{{"", "iverson"}, {"", "doz"}, {"", "min"}}, false, false},
-	{"Hash", "hash.go: hashValue", []fnKey{{"", "hashValue"}}, false, false},
-	{"Cost", "osap.go: XZCost", []fnKey{{"", "XZCost"}}, false, false},
-	{"Len", "lz.go: Seq.Len, Block.Len", []fnKey{{"Seq", "Len"}, {"Block", "Len"}}, false, false},
-	{"CfgBuf", "lz.go: BufConfig", cfgPair("BufConfig"), false, false},
-	{"CfgHash", "hash.go: hashConfig, dhConfig", cat(cfgPair("hashConfig"), cfgPair("dhConfig")), false, false},
-	{"CfgBucket", "bucket_hash.go: bucketConfig", cfgPair("bucketConfig"), false, false},
-	{"CfgHP", "hp.go: HPConfig (through the reflective helpers)", cfgPair("HPConfig"), true, false},
-	{"CfgBHP", "bhp.go: BHPConfig (through the reflective helpers)", cfgPair("BHPConfig"), true, false},
-	{"CfgDHP", "dhp.go: DHPConfig (through the reflective helpers)", cfgPair("DHPConfig"), true, false},
-	{"CfgBDHP", "bdhp.go: BDHPConfig (through the reflective helpers)", cfgPair("BDHPConfig"), true, false},
-	{"CfgBUP", "bup.go: BUPConfig (through the reflective helpers)", cfgPair("BUPConfig"), true, false},
-	{"CfgGSAP", "gsap.go: GSAPConfig (through the reflective helpers)", cfgPair("GSAPConfig"), true, false},
-	{"CfgOSAP", "osap.go: OSAPConfig (through the reflective helpers)", cfgPair("OSAPConfig"), true, false},
-	{"Dec", "decoder_buffer.go: DecoderConfig", cfgPair("DecoderConfig"), false, false},
+	{"Ints", "ints.go: iverson, doz, min", []fnKey{{"", "iverson"}, {"", "doz"}, {"", "min"}}, false, false, "", nil},
+	{"Hash", "hash.go: hashValue", []fnKey{{"", "hashValue"}}, false, false, "", nil},
+	{"Cost", "osap.go: XZCost", []fnKey{{"", "XZCost"}}, false, false, "", nil},
+	{"Len", "lz.go: Seq.Len, Block.Len", []fnKey{{"Seq", "Len"}, {"Block", "Len"}}, false, false, "", nil},
+	{"CfgBuf", "lz.go: BufConfig", cfgPair("BufConfig"), false, false, "", nil},
+	{"CfgHash", "hash.go: hashConfig, dhConfig", cat(cfgPair("hashConfig"), cfgPair("dhConfig")), false, false, "", nil},
+	{"CfgBucket", "bucket_hash.go: bucketConfig", cfgPair("bucketConfig"), false, false, "", nil},
+	{"CfgHP", "hp.go: HPConfig (through the reflective helpers)", cfgPair("HPConfig"), true, false, "", nil},
+	{"CfgBHP", "bhp.go: BHPConfig (through the reflective helpers)", cfgPair("BHPConfig"), true, false, "", nil},
+	{"CfgDHP", "dhp.go: DHPConfig (through the reflective helpers)", cfgPair("DHPConfig"), true, false, "", nil},
+	{"CfgBDHP", "bdhp.go: BDHPConfig (through the reflective helpers)", cfgPair("BDHPConfig"), true, false, "", nil},
+	{"CfgBUP", "bup.go: BUPConfig (through the reflective helpers)", cfgPair("BUPConfig"), true, false, "", nil},
+	{"CfgGSAP", "gsap.go: GSAPConfig (through the reflective helpers)", cfgPair("GSAPConfig"), true, false, "", nil},
+	{"CfgOSAP", "osap.go: OSAPConfig (through the reflective helpers)", cfgPair("OSAPConfig"), true, false, "", nil},
+	{"Dec", "decoder_buffer.go: DecoderConfig", cfgPair("DecoderConfig"), false, false, "", nil},
 	// second part: the buffer state machines
 	{"PBuf", "parser_buffer.go: the methods of ParserBuffer", methods("ParserBuffer",
-		"Shrink", "ByteAt", "PeekAt", "ReadAt", "Reset", "grow", "Write", "Init"), false, true},
+		"Shrink", "ByteAt", "PeekAt", "ReadAt", "Reset", "grow", "Write", "Init"), false, true, "", nil},
 	{"DBuf", "decoder_buffer.go: the methods of DecoderBuffer without loops", methods("DecoderBuffer",
-		"Init", "Reset", "ByteAtEnd", "Read", "shrink", "WriteByte", "Write"), false, true},
+		"Init", "Reset", "ByteAtEnd", "Read", "shrink", "WriteByte", "Write"), false, true, "", nil},
 	{"DBufCopy", "decoder_buffer.go: the copy loops of DecoderBuffer", methods("DecoderBuffer",
-		"WriteMatch", "WriteBlock"), false, true},
+		"WriteMatch", "WriteBlock"), false, true, "", nil},
 	// third part (part3Topics): slices of any element type as values — the hash tables and the
 	// initialisation / Reset / Shrink of the hash parser
 	{"HashTab", "hash.go: hash.init, hash.reset, hash.shiftOffsets", methods("hash",
-		"init", "reset", "shiftOffsets"), false, true},
+		"init", "reset", "shiftOffsets"), false, true, "", nil},
 	{"HashDict", "hash.go: hashDictionary.init, Reset, Shrink (they are Reset and Shrink of the hashParser, which embeds it)",
-		methods("hashDictionary", "init", "Reset", "Shrink"), true, true},
-	{"HPInit", "hp.go: hashParser.init", methods("hashParser", "init"), true, true},
-	{"BucketTab", "bucket_hash.go: bucketHash.reset", methods("bucketHash", "reset"), false, true},
-	{"BucketDict", "bucket_hash.go: bucketDictionary.Reset (Reset of the bucketParser)", methods("bucketDictionary", "Reset"), false, true},
+		methods("hashDictionary", "init", "Reset", "Shrink"), true, true, "", nil},
+	{"HPInit", "hp.go: hashParser.init", methods("hashParser", "init"), true, true, "", nil},
+	{"BucketTab", "bucket_hash.go: bucketHash.reset", methods("bucketHash", "reset"), false, true, "", nil},
+	{"BucketDict", "bucket_hash.go: bucketDictionary.Reset (Reset of the bucketParser)", methods("bucketDictionary", "Reset"), false, true, "", nil},
 	{"DHashDict", "hash.go: doubleHashDictionary.init, Reset, Shrink (Reset and Shrink of the double hash parsers DHP and BDHP)",
-		methods("doubleHashDictionary", "init", "Reset", "Shrink"), true, true},
-	{"BHPInit", "bhp.go: backwardHashParser.init", methods("backwardHashParser", "init"), true, true},
-	{"DHPInit", "dhp.go: doubleHashParser.init", methods("doubleHashParser", "init"), true, true},
-	{"BDHPInit", "bdhp.go: bdhp.init", methods("bdhp", "init"), true, true},
+		methods("doubleHashDictionary", "init", "Reset", "Shrink"), true, true, "", nil},
+	{"BHPInit", "bhp.go: backwardHashParser.init", methods("backwardHashParser", "init"), true, true, "", nil},
+	{"DHPInit", "dhp.go: doubleHashParser.init", methods("doubleHashParser", "init"), true, true, "", nil},
+	{"BDHPInit", "bdhp.go: bdhp.init", methods("bdhp", "init"), true, true, "", nil},
 }
 
 // part3Topics: the topics of the third part of the translator (code_gslice.go); they are
 // topics of the second part as well (part2 is set).
 var part3Topics = map[string]bool{"HashTab": true, "HashDict": true, "HPInit": true, "BucketTab": true,
 	"BucketDict": true, "DHashDict": true, "BHPInit": true, "DHPInit": true, "BDHPInit": true}
+
+// part4Topics: the topics of the fourth part (code_part4.go); they are topics of the third
+// (and second) part as well.
+var part4Topics = map[string]bool{}
+
+func init() {
+	for _, t := range topics4 {
+		part3Topics[t.name] = true
+		part4Topics[t.name] = true
+	}
+}
 
 func methods(recv string, names ...string) []fnKey {
 	var out []fnKey
@@ -177,6 +191,7 @@ func (c *codegen) restore(s cgSnap) {
 	c.cur = nil
 	c.phase2 = false
 	c.phase3 = false
+	c.phase4 = false
 }
 
 // checkReflPrimsSoft is checkReflPrims with a refusal instead of a fatal error.
@@ -204,13 +219,15 @@ func (c *codegen) checkReflPrimsSoft() {
 // ---------------------------------------------------------------- driver
 
 type topicOut struct {
-	t       topic
-	refused bool
-	msg     string
-	structs []string
-	outs    []fnOut
-	helpers []string
-	deps    []string
+	cg         *codegen
+	autoHelper map[fnKey]bool
+	t          topic
+	refused    bool
+	msg        string
+	structs    []string
+	outs       []fnOut
+	helpers    []string
+	deps       []string
 }
 
 var identRe = regexp.MustCompile(`[A-Za-z_][A-Za-z0-9_.']*`)
@@ -218,10 +235,60 @@ var identRe = regexp.MustCompile(`[A-Za-z_][A-Za-z0-9_.']*`)
 // genCodeTopics translates every topic and writes the modules next to codeFile
 // (…/Code.lean).  It reports whether a topic was refused.
 func genCodeTopics(p *pkgInfo, repo, codeFile string) (partial bool) {
-	c := &codegen{p: p, fns: p.funcs(), structs: p.structs(), constTypes: map[string]ast.Expr{},
+	fnOwner := map[string]string{}     // lean function name -> topic
+	structOwner := map[string]string{} // struct -> topic
+	var results []*topicOut
+	var topics []topic
+	// the root package first, then the sub-packages (fourth part) in the order of topics4
+	var rootTopics []topic
+	rootTopics = append(rootTopics, codeTopics...)
+	var subPkgs []string
+	for _, t := range topics4 {
+		if t.pkg == "" {
+			rootTopics = append(rootTopics, t)
+		} else {
+			known := false
+			for _, s := range subPkgs {
+				known = known || s == t.pkg
+			}
+			if !known {
+				subPkgs = append(subPkgs, t.pkg)
+			}
+		}
+	}
+	{
+		ts, rs, part := translateTopics(p, rootTopics, true, "", fnOwner, structOwner, nil)
+		topics, results, partial = append(topics, ts...), append(results, rs...), partial || part
+	}
+	rootStructs := p.structs()
+	for _, sub := range subPkgs {
+		var sts []topic
+		for _, t := range topics4 {
+			if t.pkg == sub {
+				sts = append(sts, t)
+			}
+		}
+		sp := load(filepath.Join(repo, sub))
+		ts, rs, part := translateTopics(sp, sts, false, sub+"_", fnOwner, structOwner, rootStructs)
+		topics, results, partial = append(topics, ts...), append(results, rs...), partial || part
+	}
+	renderTopics(codeFile, topics, results, fnOwner, structOwner)
+	return partial
+}
+
+// translateTopics translates the topics of ONE package (one codegen per package: function and
+// struct tables, mutation analysis, error variables are per package).  prefix is put in front of
+// the Lean names of the functions of a sub-package (`suffix_InvertSA`); the struct names of a
+// sub-package must not collide with those of the root package (reserved).
+func translateTopics(p *pkgInfo, topicsIn []topic, withMisc bool, prefix string, fnOwner, structOwner map[string]string,
+	reserved map[string][]field) (topics []topic, results []*topicOut, partial bool) {
+	leanFnPrefix = prefix
+	defer func() { leanFnPrefix = "" }()
+	c := &codegen{p: p, prefix: prefix, reservedStructs: reserved, fns: p.funcs(), structs: p.structs(), constTypes: map[string]ast.Expr{},
 		whiteSet: map[fnKey]bool{}, mutates: map[fnKey]bool{}, refl: map[string]*reflInfo{},
 		structSeen: map[string]bool{}, done: map[fnKey]bool{}, busy: map[fnKey]bool{},
-		structPhase: map[string]int{}, sigs: map[fnKey]*fnSig{}, white2Set: map[fnKey]bool{}, white3Set: map[fnKey]bool{}}
+		structPhase: map[string]int{}, sigs: map[fnKey]*fnSig{}, white2Set: map[fnKey]bool{}, white3Set: map[fnKey]bool{}, white4Set: map[fnKey]bool{},
+		opaqueOf: map[fnKey]bool{}}
 	for _, f := range p.files {
 		for _, d := range f.Decls {
 			if gd, ok := d.(*ast.GenDecl); ok && gd.Tok == token.CONST {
@@ -239,7 +306,7 @@ func genCodeTopics(p *pkgInfo, repo, codeFile string) (partial bool) {
 		}
 	}
 	// topics: the table above plus "Misc" for whitelisted functions it does not mention
-	topics := append([]topic{}, codeTopics...)
+	topics = append([]topic{}, topicsIn...)
 	inTopic := map[fnKey]bool{}
 	for _, t := range topics {
 		for _, k := range t.fns {
@@ -247,27 +314,31 @@ func genCodeTopics(p *pkgInfo, repo, codeFile string) (partial bool) {
 		}
 	}
 	var misc, misc2 []fnKey
-	for _, k := range codeWhitelist {
-		if !inTopic[k] {
-			misc = append(misc, k)
+	if withMisc {
+		for _, k := range codeWhitelist {
+			if !inTopic[k] {
+				misc = append(misc, k)
+			}
 		}
-	}
-	for _, k := range codeWhitelist2 {
-		if !inTopic[k] {
-			misc2 = append(misc2, k)
+		for _, k := range codeWhitelist2 {
+			if !inTopic[k] {
+				misc2 = append(misc2, k)
+			}
 		}
 	}
 	if len(misc) > 0 {
-		topics = append(topics, topic{"Misc", "whitelisted functions without a topic", misc, true, false})
+		topics = append(topics, topic{"Misc", "whitelisted functions without a topic", misc, true, false, "", nil})
 	}
 	if len(misc2) > 0 {
-		topics = append(topics, topic{"Misc2", "whitelisted functions of the second part without a topic", misc2, false, true})
+		topics = append(topics, topic{"Misc2", "whitelisted functions of the second part without a topic", misc2, false, true, "", nil})
 	}
 	// first-part topics first: a function of the second part may call one of the first, never the other way round
 	{
-		var t1, t2, t3 []topic
+		var t1, t2, t3, t4 []topic
 		for _, t := range topics {
 			switch {
+			case part4Topics[t.name]:
+				t4 = append(t4, t)
 			case part3Topics[t.name]:
 				t3 = append(t3, t)
 			case t.part2:
@@ -276,7 +347,7 @@ func genCodeTopics(p *pkgInfo, repo, codeFile string) (partial bool) {
 				t1 = append(t1, t)
 			}
 		}
-		topics = append(append(t1, t2...), t3...)
+		topics = append(append(append(t1, t2...), t3...), t4...)
 	}
 	// helpers that are followed automatically (see helperCallees): added to the calling topic
 	autoHelper := map[fnKey]bool{}
@@ -292,6 +363,10 @@ func genCodeTopics(p *pkgInfo, repo, codeFile string) (partial bool) {
 			known := map[fnKey]bool{}
 			for k := range listed {
 				known[k] = true
+			}
+			for _, k := range topics[i].opaque {
+				known[k] = true // not followed: a parameter of the translated functions
+				c.opaqueOf[k] = true
 			}
 			var hs []fnKey
 			for _, k := range topics[i].fns {
@@ -320,6 +395,9 @@ func genCodeTopics(p *pkgInfo, repo, codeFile string) (partial bool) {
 			if t.part2 && (!autoHelper[k] || helperPart2[k]) {
 				if part3Topics[t.name] {
 					if !c.white2Set[k] {
+						if part4Topics[t.name] && !c.white3Set[k] {
+							c.white4Set[k] = true
+						}
 						c.white3Set[k] = true
 					}
 				} else {
@@ -329,7 +407,12 @@ func genCodeTopics(p *pkgInfo, repo, codeFile string) (partial bool) {
 			}
 		}
 	}
-	c.collectErrVars()
+	if prefix == "" {
+		c.collectErrVars()
+	} else {
+		// a sub-package: its error variables are not emitted (CodeErrVars is the root package's)
+		c.errVars, c.errVarDropped = map[string]*errVar{}, map[string]bool{}
+	}
 
 	// the reflective helpers are analysed up front, one by one: a helper that is refused
 	// must not take the mutation analysis (and with it every topic) down
@@ -360,13 +443,9 @@ func genCodeTopics(p *pkgInfo, repo, codeFile string) (partial bool) {
 		delete(c.refl, n) // analysed (and refused) again by the topic that uses it
 	}
 
-	dir := filepath.Dir(codeFile)
-	fnOwner := map[string]string{}     // lean function name -> topic
-	structOwner := map[string]string{} // struct -> topic
-	var results []*topicOut
 	for _, t := range topics {
 		t := t
-		res := &topicOut{t: t}
+		res := &topicOut{t: t, cg: c, autoHelper: autoHelper}
 		results = append(results, res)
 		snap := c.snap()
 		run := func() {
@@ -383,11 +462,11 @@ func genCodeTopics(p *pkgInfo, repo, codeFile string) (partial bool) {
 			if t.refl {
 				c.checkReflPrimsSoft()
 			}
-			c.phase2, c.phase3 = t.part2, part3Topics[t.name]
+			c.phase2, c.phase3, c.phase4 = t.part2, part3Topics[t.name], part4Topics[t.name]
 			for _, k := range t.fns {
 				c.ensure(k, c.fns[k])
 			}
-			c.phase2, c.phase3 = false, false
+			c.phase2, c.phase3, c.phase4 = false, false, false
 		}
 		res.refused, res.msg = guarded(run)
 		if res.refused {
@@ -424,6 +503,13 @@ func genCodeTopics(p *pkgInfo, repo, codeFile string) (partial bool) {
 		sortStrings(res.helpers)
 	}
 
+	return topics, results, partial
+}
+
+// renderTopics writes the modules.
+func renderTopics(codeFile string, topics []topic, results []*topicOut, fnOwner, structOwner map[string]string) {
+	dir := filepath.Dir(codeFile)
+	c := results[0].cg // the root package: owner of the error variables
 	// ---- render
 	header := func(sb *strings.Builder, what string, imports []string) {
 		fmt.Fprintf(sb, "-- GENERATED by tools/extract -code from the repository source — do not edit; regenerated on every check\n")
@@ -471,6 +557,14 @@ func genCodeTopics(p *pkgInfo, repo, codeFile string) (partial bool) {
 		sb.WriteString("\nend LZ.Gen\n")
 		write("CodeGSlicePrelude", sb.String())
 	}
+	{
+		var sb strings.Builder
+		header(&sb, "Fourth prelude of the translation (package suffix, bitset): append on slices of any element type, bit scans.", []string{"CodeGSlicePrelude"})
+		sb.WriteString("namespace LZ.Gen\n\n")
+		sb.WriteString(leanPrelude4)
+		sb.WriteString("\nend LZ.Gen\n")
+		write("CodePart4Prelude", sb.String())
+	}
 	errVarNames := map[string]bool{}
 	{
 		// every package-level error variable that is a constant, whether a topic uses it or not:
@@ -498,6 +592,10 @@ func genCodeTopics(p *pkgInfo, repo, codeFile string) (partial bool) {
 	}
 	var present []string
 	for _, res := range results {
+		c := res.cg
+		autoHelper := res.autoHelper
+		leanFnPrefix = c.prefix
+		c.phase4 = part4Topics[res.t.name] // the field types of its structures (int32)
 		file := "Code" + res.t.name
 		if res.refused {
 			os.Remove(filepath.Join(dir, file+".lean"))
@@ -570,6 +668,9 @@ func genCodeTopics(p *pkgInfo, repo, codeFile string) (partial bool) {
 			if part3Topics[res.t.name] {
 				imports = append(imports, "CodeGSlicePrelude")
 			}
+			if part4Topics[res.t.name] {
+				imports = append(imports, "CodePart4Prelude")
+			}
 			for _, tok := range identRe.FindAllString(body.String(), -1) {
 				if errVarNames[tok] {
 					imports = append(imports, "CodeErrVars")
@@ -595,7 +696,7 @@ func genCodeTopics(p *pkgInfo, repo, codeFile string) (partial bool) {
 	{
 		var sb strings.Builder
 		header(&sb, "Umbrella: imports every topic module that could be translated.",
-			append([]string{"CodePrelude", "CodeSlicePrelude", "CodeGSlicePrelude", "CodeErrVars"}, present...))
+			append([]string{"CodePrelude", "CodeSlicePrelude", "CodeGSlicePrelude", "CodePart4Prelude", "CodeErrVars"}, present...))
 		for _, res := range results {
 			if res.refused {
 				fmt.Fprintf(&sb, "-- topic %s REFUSED: %s\n", res.t.name, oneLine(strings.ReplaceAll(res.msg, "extract: ", "")))
@@ -606,7 +707,7 @@ func genCodeTopics(p *pkgInfo, repo, codeFile string) (partial bool) {
 		}
 	}
 	// modules of topics that no longer exist (an older topic table) must not linger
-	keep := map[string]bool{"Code.lean": true, "CodeAttr.lean": true, "CodePrelude.lean": true, "CodeSlicePrelude.lean": true, "CodeGSlicePrelude.lean": true, "CodeErrVars.lean": true}
+	keep := map[string]bool{"Code.lean": true, "CodeAttr.lean": true, "CodePrelude.lean": true, "CodeSlicePrelude.lean": true, "CodeGSlicePrelude.lean": true, "CodePart4Prelude.lean": true, "CodeErrVars.lean": true}
 	for _, f := range present {
 		keep[f+".lean"] = true
 	}
@@ -617,8 +718,7 @@ func genCodeTopics(p *pkgInfo, repo, codeFile string) (partial bool) {
 			}
 		}
 	}
-	_ = repo
-	return partial
+	leanFnPrefix = ""
 }
 
 // ---------------------------------------------------------------- helpers followed automatically
